@@ -33,6 +33,60 @@ CHECKS = {
         ref='DESIGN.md §6 C03'),
 }
 
+CHECKS.update({
+    'C06': dict(
+        text='Theorems (Props/C06.lean) over the size skeleton of _build_tree built from the regenerated Gen.Split (integer code of '
+             '_get_balanced_split, its slices and masks, the leaf test): for every n, max_leaf_size and overlap oracle that leaves two '
+             'unshared samples per split the construction terminates within n+1 levels with no assertion failing and every leaf <= '
+             'max_leaf_size; children are ceil/floor halves plus the band; depth <= ceil(log2(n/L)) at zero overlap; forced split counts '
+             'are honoured; the float hypothesis follows from (1-2f)L >= 4. Sizes are data independent by construction. Tied to the code by '
+             'the translator and by an exhaustive size grid of real _build_tree runs (stubbed leaves) plus real fits for every split method '
+             'on degenerate data under a wall-clock guard.',
+        note=TB + 'Modelled, not verified: torch.sort/median/quantile (rank split needs only that sort returns a permutation), the float '
+             'expression int(round(2*f*n)) (oracle; |r-2fn|<1 checked for every n up to 1e5/2e6), direction finding (svd, solve, lobpcg) - '
+             'covered only by the real-fit family. Forced splits of a single-sample node are infeasible (assertion) and excluded.',
+        technique='Lean 4 proof (induction on fuel/depth, omega arithmetic over regenerated integer code) + exhaustive differential size grid',
+        ref='DESIGN.md §6 C06'),
+    'C09': dict(
+        text='Proved in Lean for every tree shape and depth, row, keep fraction, cap and tie-breaking of the sort: the cache built by the '
+             'stack traversal pairs each leaf id with its model and its root-to-leaf gates; soft-routing weights are the documented soft-max '
+             'of summed log-sigmoid gate terms; truncation keeps a non-empty top-m set (m <= min(cap, leaves), minimal for the keep fraction, '
+             'ties open) and renormalises to a simplex, so each output lies in the hull of the active leaves; a dominant leaf gives exactly '
+             'its prediction, and as T->0+ the output eventually equals the hard-routed prediction for keep < 1/(1+(N-1)e^-50). Decision '
+             'expressions are regenerated from the current source (Gen.Soft) and the model is run against the real code (recording leaf '
+             'stubs, fitted models, float32/float64) with an independent property oracle.',
+        note=TB + 'Real arithmetic; float rounding absorbed by a computed allowance. torch.sort is an oracle (any sorting permutation). Clamps '
+             'of normalisers to finfo.tiny are not modelled (normaliser >= 1). T <= 0, NaN rows and empty batches are outside the quantifier. '
+             'A harmless change of push order breaks cache_paths (left-to-right claim) with no failing input.',
+        technique='Lean 4 + Mathlib: functional induction on the stack machine, list algebra for the cumulative cut-off, Filter/Tendsto '
+                  'argument for T->0+; ast translator (Gen.Soft); float64 Lean driver vs torch; exhaustive shapes of depth <= 3',
+        ref='DESIGN.md §6 C09'),
+    'C15': dict(
+        text='Proved in Lean for all sizes, group counts, levels and column orders: on one-hot rows with identity code vectors the categorical '
+             'fast path (per-group l_p^p tables indexed by arg-max category plus the numerical distance, then the kernel\'s outer function) '
+             'equals the dense L2/product/Lpq kernel on the expanded rows for every transform without cross-block entries (absent, diagonal, '
+             'block-diagonal); the categorical AGOP equals the dense AGOP masked to the numerical and per-group blocks, which do not overlap for '
+             'disjoint index groups. Tied to the code by a float64 correspondence of the real fast path, the real dense path and the compiled '
+             'model, exhaustive over all one-hot rows of small layouts.',
+        note=TB + 'Exact real arithmetic; float64 rounding absorbed by a computed per-entry allowance. No translator tie (correspondence only). '
+             'Function gradients enter the AGOP model as a given matrix (gradient correctness is C04). Adaptive-bandwidth hook, batching and '
+             'center_grads are not modelled; GPU/Kermac kernels out of reach.',
+        technique='Lean 4 + Mathlib proof over a scalar-generic executable model (list-sum partition algebra, one-hot arg-max, block-matrix '
+                  'restriction) + differential check real fast vs real dense vs Lean driver, exhaustive small family, negative control',
+        ref='DESIGN.md §6 C15'),
+    'C16': dict(
+        text='Lean 4 theorems prove, for every array size, class count and value, that predictions identical to the targets attain the optimum '
+             'of each of the eight metrics (0 for mse/rmse/mae/brier/logloss, 1 for accuracy/f1/auc, rmse monotone in mse), and that every '
+             'entry of the should_maximize table regenerated from the current source points to that optimum (a flipped flag breaks '
+             'direction_table). Metric values are tied to the code by a correspondence comparing the real Metric.compute (float64/float32) with '
+             'exact rational evaluation of the model and with an independent numpy definition, including an exhaustive binary family.',
+        note=TB + 'Theorems are about the model in exact arithmetic. Floating-point rounding, sklearn roc_auc_score/f1_score/log_loss (incl. '
+             'clipping) and torch reductions are modelled by their textbook definitions, compared per case under a computed allowance. Brier '
+             'follows the code\'s samples x classes convention.',
+        technique='Lean 4 proof over a source-regenerated flag table + exact-rational model/implementation correspondence with exhaustive small family',
+        ref='DESIGN.md §6 C16'),
+})
+
 NOT_YET = {}
 
 
